@@ -158,8 +158,10 @@ class VCSAPI:
                 output = self('ls_branches')
 
                 for line in output.split("\n"):
-                    if line.startswith("*") and line[1:].strip():
-                        return line[1:].strip()
+                    remote = line[1:].strip()
+                    # NOTE: "." is the upstream "remote" of a branch that tracks a local branch
+                    if line.startswith("*") and remote and remote != ".":
+                        return remote
 
             output = self('show_remotes')
             if output.strip() == "":
